@@ -29,6 +29,9 @@ SEP_KINDS = ['orbital_period', 'orbital_frequency', 'semi_major_axis']
 SPIN_KINDS = ['spin_period', 'spin_frequency']
 
 
+_WIDE = [False]     # per-plan swarm knob (C17): separations over thirty orders of magnitude
+
+
 def gen_value(d: Draw, kind, n, mixed=None):
     # n > 0: array run.  n < 0 encodes "mixed" runs (scalars and arrays of length -n in one history), which cost a numba
     # compilation per new signature, so they are the minority.
@@ -37,6 +40,10 @@ def gen_value(d: Draw, kind, n, mixed=None):
     else:
         v = {'v': d.pick(PAL[kind]), 'arr': bool(n)}
     n = abs(n)
+    if _WIDE[0] and kind in SEP_KINDS and d.chance(1, 3):
+        # "all positive finite inputs over 30 orders of magnitude": a period of microseconds, a separation far inside the
+        # host or of light-years - Kepler's law is a pure identity between the three stored numbers and must survive them
+        v['v'] = v['v'] * 10.0 ** d.pick([-15, -12, -9, -6, -4, -3, -2, -1, 1, 2, 3, 4, 6, 9, 12, 15])
     if d.chance(1, 6):
         # a value a hair away from a palette value: successive updates that differ by far less than any "looks unchanged"
         # tolerance, as a time-stepping caller produces them
@@ -479,6 +486,7 @@ class OopStateEngine(EngineBase):
         d = Draw(seed)
         cfg = gen_config(d, self.prop)
         n_ops = d.between(3, 10) if tier == 'quick' else d.between(3, 14)
+        _WIDE[0] = self.prop == 'C17' and d.chance(1, 3)
         ops = []
         if d.chance(3, 4):
             # most histories start by placing the system in a complete state, so that tides are actually computed
